@@ -320,6 +320,18 @@ bool eval_op(const std::string & op, const VX<S> & x, VX<S> & out)
     const Eigen::Matrix<S, 3, 1> e = g.eulerAngles(0, 1, 2);
     put(out, e);
     put(out, (SO3<S>::rot_x(e(0)) * SO3<S>::rot_y(e(1)) * SO3<S>::rot_z(e(2))).coeffs());
+  } else if (op.rfind("conv_euler_a", 0) == 0 && op.size() == 15 && n == 4) {
+    // eulerAngles(i1, i2, i3) for ANY axis convention (Tait-Bryan and proper Euler), recomposed from rot_x/y/z
+    const int i1 = op[12] - '0', i2 = op[13] - '0', i3 = op[14] - '0';
+    auto rot = [](int i, S t) { return i == 0 ? SO3<S>::rot_x(t) : (i == 1 ? SO3<S>::rot_y(t) : SO3<S>::rot_z(t)); };
+    const SO3<S> g                 = fromc<SO3<S>>(x, 0);
+    const Eigen::Matrix<S, 3, 1> e = g.eulerAngles(i1, i2, i3);
+    put(out, e);
+    put(out, (rot(i1, e(0)) * rot(i2, e(1)) * rot(i3, e(2))).coeffs());
+  } else if (op.rfind("conv_of_euler_a", 0) == 0 && op.size() == 18 && n == 3) {
+    const int i1 = op[15] - '0', i2 = op[16] - '0', i3 = op[17] - '0';
+    auto rot = [](int i, S t) { return i == 0 ? SO3<S>::rot_x(t) : (i == 1 ? SO3<S>::rot_y(t) : SO3<S>::rot_z(t)); };
+    put(out, (rot(i1, x[0]) * rot(i2, x[1]) * rot(i3, x[2])).coeffs());
   } else if (op == "conv_so3_quat_write" && n == 4) {
     SO3<S> g = SO3<S>::Identity();
     g.quat() = Eigen::Quaternion<S>(x[0], x[1], x[2], x[3]);  // (w, x, y, z)
@@ -735,6 +747,24 @@ void run_ctors(FILE * f, Rng & r, int n)
       VX<S> xe;
       put(xe, ge.coeffs());
       go<S>(f, "conv_euler_xyz", "SO3", xe, "");
+      {  // every axis convention in turn: 6 Tait-Bryan (i1 != i3) and 6 proper Euler (i1 == i3); gimbal lock excluded:
+         // |R(i1,i3)| = |sin e1| (Tait-Bryan) resp. |cos e1| (proper Euler) must stay below 0.999
+        static const int conv[12][3] = {{0, 1, 2}, {0, 2, 1}, {1, 0, 2}, {1, 2, 0}, {2, 0, 1}, {2, 1, 0},
+                                        {0, 1, 0}, {0, 2, 0}, {1, 0, 1}, {1, 2, 1}, {2, 0, 2}, {2, 1, 2}};
+        for (int pass = 0; pass < 2; ++pass) {
+          const int * c = conv[(2 * i + pass * 7) % 12];
+          SO3<S> gc     = pass == 0 ? ge : random_so3<S>(r, i + 3);
+          for (int tries = 0; tries < 20; ++tries) {
+            const Eigen::Matrix<S, 3, 3> R = gc.matrix();
+            if (std::fabs(double(R(c[0], c[2]))) < 0.999) break;
+            gc = random_so3<S>(r, tries);
+          }
+          VX<S> xc;
+          put(xc, gc.coeffs());
+          const std::string ax = std::string(1, char('0' + c[0])) + char('0' + c[1]) + char('0' + c[2]);
+          go<S>(f, ("conv_euler_a" + ax).c_str(), "SO3", xc, c[0] == c[2] ? "proper_euler" : "tait_bryan");
+        }
+      }
       go<S>(f, "conv_of_euler_xyz", "SO3", VX<S>{S(r.uni(-M_PI, M_PI)), S(r.uni(-1.5, 1.5)), S(r.uni(-M_PI, M_PI))}, "");
     }
   }
